@@ -146,7 +146,20 @@ func RunScanLogic(fsys FileSystem, pkgLoader PackageLoader, target string, opts 
 		if allAlerts[i].MatchedFunction != allAlerts[j].MatchedFunction {
 			return allAlerts[i].MatchedFunction < allAlerts[j].MatchedFunction
 		}
-		return allAlerts[i].SignatureName < allAlerts[j].SignatureName
+		if allAlerts[i].SignatureName != allAlerts[j].SignatureName {
+			return allAlerts[i].SignatureName < allAlerts[j].SignatureName
+		}
+		// Tie-breakers make the order total, so that it does not depend on the order in
+		// which the per-file workers happened to finish.
+		if allAlerts[i].SignatureID != allAlerts[j].SignatureID {
+			return allAlerts[i].SignatureID < allAlerts[j].SignatureID
+		}
+		if allAlerts[i].Confidence != allAlerts[j].Confidence {
+			return allAlerts[i].Confidence > allAlerts[j].Confidence
+		}
+		ai, _ := json.Marshal(allAlerts[i])
+		aj, _ := json.Marshal(allAlerts[j])
+		return string(ai) < string(aj)
 	})
 
 	summary := models.ScanSummary{TotalAlerts: len(allAlerts)}
